@@ -170,6 +170,65 @@ func (s *Sim) queryCases() []queryCase {
 				}
 				return out
 			}},
+		{name: "xattrs-is-null", ordered: true,
+			stmt: `SELECT json_quote(id) AS id FROM $_keyspace WHERE xattrs IS NULL ORDER BY id`,
+			want: func(docs []liveDoc) []QRow {
+				var out []QRow
+				for _, d := range docs {
+					if len(d.x) == 0 {
+						out = append(out, idRow(d))
+					}
+				}
+				return out
+			}},
+		{name: "xattrs-column", ordered: true,
+			stmt: `SELECT json_quote(id) AS id, xattrs AS x FROM $_keyspace ORDER BY id`,
+			want: func(docs []liveDoc) []QRow {
+				var out []QRow
+				for _, d := range docs {
+					r := idRow(d)
+					if len(d.x) > 0 {
+						r["x"] = canon(d.x)
+					}
+					out = append(out, r)
+				}
+				return out
+			}},
+		{name: "null-first-column", ordered: true,
+			stmt: `SELECT xattrs->'_sync'->'seq' AS s, xattrs->'u1' AS u, json_quote(id) AS id FROM $_keyspace ORDER BY id`,
+			want: func(docs []liveDoc) []QRow {
+				var out []QRow
+				for _, d := range docs {
+					r := idRow(d)
+					if sy, ok := d.x["_sync"].(map[string]any); ok {
+						if v, ok := sy["seq"]; ok && v != nil {
+							r["s"] = canon(v)
+						}
+					}
+					if v, ok := d.x["u1"]; ok && v != nil {
+						r["u"] = canon(v)
+					}
+					out = append(out, r)
+				}
+				return out
+			}},
+		{name: "null-middle-column", ordered: true, jsonOnly: true,
+			stmt: `SELECT json_quote(id) AS id, body->'n' AS n, body->'t' AS t, json_quote(id) AS id2 FROM $_keyspace ORDER BY id DESC`,
+			want: func(docs []liveDoc) []QRow {
+				var out []QRow
+				for i := len(docs) - 1; i >= 0; i-- {
+					d := docs[i]
+					r := QRow{"id": canon(d.id), "id2": canon(d.id)}
+					if v, ok := objField(d.doc, "n"); ok && v != nil {
+						r["n"] = canon(v)
+					}
+					if v, ok := objField(d.doc, "t"); ok && v != nil {
+						r["t"] = canon(v)
+					}
+					out = append(out, r)
+				}
+				return out
+			}},
 		{name: "xattr-number", ordered: true, args: map[string]any{"s": smin},
 			stmt: `SELECT json_quote(id) AS id FROM $_keyspace WHERE xattrs->'_sync'->>'seq' >= $s ORDER BY id`,
 			want: func(docs []liveDoc) []QRow {
